@@ -138,3 +138,17 @@ pub mod look_behind {
         X,
     }
 }
+pub mod greedy_dot_explicit_false {
+    use logos::Logos;
+    #[derive(Logos)]
+    pub enum A {
+        #[regex("//.*", allow_greedy = false)]
+        X,
+    }
+    #[derive(Logos)]
+    #[logos(skip("#.*", allow_greedy = false))]
+    pub enum B {
+        #[token("a")]
+        X,
+    }
+}
